@@ -115,6 +115,9 @@ pub struct Case {
     /// so how they are read must not depend on it
     #[serde(default)]
     pub seps: u8,
+    /// D +- N unit: write the sign glued to the count (`10 june 2020 -3 weeks`); only for dates written with their year
+    #[serde(default)]
+    pub glue: bool,
 }
 
 /// default zones under which dates are read and computed (calendar dates do not depend on the zone)
@@ -155,7 +158,17 @@ pub fn case_line(c: &Case) -> Line {
         Shape::Arith(d, plus, n, u, sp, extra) => {
             push_all(&mut l, d.toks(lang));
             l.push(Tok::op(if *plus { '+' } else { '-' }));
-            l.push(Tok::num(NumLit { v: *n as f64, sign: 0, group: false }));
+            // a glued sign makes the count a negative LITERAL: the line is the date followed by a negative duration, which
+            // is added. Asserted for spans below 30 days only: beyond that the known findings F80/F81 (a duration forgets
+            // its unit) apply in a sign-dependent way that is not modelled.
+            let days = match u {
+                Unit::Days => *n as u64,
+                Unit::Weeks => *n as u64 * 7,
+                _ => u64::MAX,
+            };
+            // (years below 32 are left out: `jan 31 -1` also reads as the month-first date `Mon day year`)
+            let glued = c.glue && d.y.map_or(false, |y| y >= 32) && days < 30 && *n > 0 && extra.is_none();
+            l.push(Tok::num(NumLit { v: *n as f64, sign: 0, group: false }).sp(if glued { 0 } else { 1 }));
             l.push(Tok::word(unit_word(lang, *u, *sp), Class::DurWord));
             if let Some(e) = extra {
                 l.push(Tok::num(NumLit { v: *e as f64, sign: 0, group: false }));
@@ -572,18 +585,19 @@ pub fn shape_strategy(lang: &'static str) -> impl Strategy<Value = Shape> {
 }
 
 pub fn case_strategy() -> impl Strategy<Value = Case> {
-    (case_strategy_default_separators(), prop_oneof![3 => Just(0u8), 1 => 1u8..4]).prop_map(|(mut c, seps)| {
+    (case_strategy_default_separators(), prop_oneof![3 => Just(0u8), 1 => 1u8..4], prop::bool::weighted(0.25)).prop_map(|(mut c, seps, glue)| {
         c.seps = seps;
+        c.glue = glue;
         c
     })
 }
 
 fn case_strategy_default_separators() -> impl Strategy<Value = Case> {
     prop_oneof![
-        4 => shape_strategy("en").prop_map(|shape| Case { lang: "en".into(), shape, tz: None, seps: 0 }),
-        2 => shape_strategy("tr").prop_map(|shape| Case { lang: "tr".into(), shape, tz: None, seps: 0 }),
-        2 => (shape_strategy("en"), prop::sample::select(ZONES.to_vec())).prop_map(|(shape, z)| Case { lang: "en".into(), shape, tz: Some(z.to_string()), seps: 0 }),
-        1 => (shape_strategy("tr"), prop::sample::select(ZONES.to_vec())).prop_map(|(shape, z)| Case { lang: "tr".into(), shape, tz: Some(z.to_string()), seps: 0 }),
+        4 => shape_strategy("en").prop_map(|shape| Case { lang: "en".into(), shape, tz: None, seps: 0, glue: false }),
+        2 => shape_strategy("tr").prop_map(|shape| Case { lang: "tr".into(), shape, tz: None, seps: 0, glue: false }),
+        2 => (shape_strategy("en"), prop::sample::select(ZONES.to_vec())).prop_map(|(shape, z)| Case { lang: "en".into(), shape, tz: Some(z.to_string()), seps: 0, glue: false }),
+        1 => (shape_strategy("tr"), prop::sample::select(ZONES.to_vec())).prop_map(|(shape, z)| Case { lang: "tr".into(), shape, tz: Some(z.to_string()), seps: 0, glue: false }),
     ]
 }
 
@@ -595,13 +609,13 @@ pub fn month_grid() -> Vec<Case> {
             for n in 0..=36u32 {
                 for plus in [true, false] {
                     for d in [1u32, 15, 28] {
-                        out.push(Case { lang: "en".into(), shape: Shape::Arith(DateLit { y: Some(y), m, d, spell: Spell::DMonY(0, 0, 0) }, plus, n, Unit::Months, 1, None), tz: None, seps: 0 });
+                        out.push(Case { lang: "en".into(), shape: Shape::Arith(DateLit { y: Some(y), m, d, spell: Spell::DMonY(0, 0, 0) }, plus, n, Unit::Months, 1, None), tz: None, seps: 0, glue: false });
                     }
                 }
             }
             for n in 0..=5u32 {
                 for plus in [true, false] {
-                    out.push(Case { lang: "en".into(), shape: Shape::Arith(DateLit { y: Some(y), m, d: 15, spell: Spell::Slash(false, false) }, plus, n, Unit::Years, 1, None), tz: None, seps: 0 });
+                    out.push(Case { lang: "en".into(), shape: Shape::Arith(DateLit { y: Some(y), m, d: 15, spell: Spell::Slash(false, false) }, plus, n, Unit::Years, 1, None), tz: None, seps: 0, glue: false });
                 }
             }
         }
@@ -613,10 +627,10 @@ pub fn month_grid() -> Vec<Case> {
             for (i, _) in names.iter().enumerate() {
                 let pick = ((i as u64 * (1u64 << 32)) / names.len() as u64 + 1) as u32;
                 for cp in 0..4u8 {
-                    out.push(Case { lang: lang.into(), shape: Shape::Literal(DateLit { y: Some(2020), m, d: 12, spell: Spell::DMonY(pick, cp, 0) }), tz: None, seps: 0 });
-                    out.push(Case { lang: lang.into(), shape: Shape::Literal(DateLit { y: None, m, d: 12, spell: Spell::DMon(pick, cp, 0) }), tz: None, seps: 0 });
+                    out.push(Case { lang: lang.into(), shape: Shape::Literal(DateLit { y: Some(2020), m, d: 12, spell: Spell::DMonY(pick, cp, 0) }), tz: None, seps: 0, glue: false });
+                    out.push(Case { lang: lang.into(), shape: Shape::Literal(DateLit { y: None, m, d: 12, spell: Spell::DMon(pick, cp, 0) }), tz: None, seps: 0, glue: false });
                     if lang == "en" {
-                        out.push(Case { lang: lang.into(), shape: Shape::Literal(DateLit { y: Some(1999), m, d: 31.min(days_in_month(1999, m as i64) as u32), spell: Spell::MonDY(pick, cp, 0, cp % 2 == 0) }), tz: None, seps: 0 });
+                        out.push(Case { lang: lang.into(), shape: Shape::Literal(DateLit { y: Some(1999), m, d: 31.min(days_in_month(1999, m as i64) as u32), spell: Spell::MonDY(pick, cp, 0, cp % 2 == 0) }), tz: None, seps: 0, glue: false });
                     }
                 }
             }
@@ -627,7 +641,7 @@ pub fn month_grid() -> Vec<Case> {
 
 pub fn run(ctx: &Ctx) {
     crate::calendar::self_test();
-    ctx.rule("generated: dates of years 1..9999 (uniform day numbers, recent years, month ends, leap days, Dec/Jan, the current year) in every spelling (d/m/y with/without leading zeros and blanks, d Mon y, d Month y, Mon d[,] y, d Mon) in any letter case, English and Turkish (all configured month names incl. ASCII variants); impossible dates (day 0, day past the end of the month incl. 29 Feb of non-leap years, month 0/13); D +- N days|weeks|months|years (+ extra days), A to B in both orders, today/tomorrow/yesterday and their differences; a quarter of the cases under one of the other three separator conventions (dates contain no separators), a third of the cases under a non-UTC default zone (GMT+14, GMT-12, EST, CET, IST, NPT, GMT+13:45, GMT-9:30: calendar dates and their arithmetic do not depend on the zone, and the three day constants stay consecutive); oracle: independent proleptic-Gregorian calendar (days-from-civil), month arithmetic = month index moved by N keeping the day of month (asserted only when that day exists and the result is in years 1..9999), differences = |days|*86400 s, output month word/year elision checked; exhaustive grid 12 months x N 0..36 x +- x days {1,15,28}; non-trivial = the operation crosses a month boundary, or a non-canonical spelling, an impossible date, a difference");
+    ctx.rule("generated: dates of years 1..9999 (uniform day numbers, recent years, month ends, leap days, Dec/Jan, the current year) in every spelling (d/m/y with/without leading zeros and blanks, d Mon y, d Month y, Mon d[,] y, d Mon) in any letter case, English and Turkish (all configured month names incl. ASCII variants); impossible dates (day 0, day past the end of the month incl. 29 Feb of non-leap years, month 0/13); D +- N days|weeks|months|years (+ extra days; for spans below 30 days also with the sign glued to the count: `10 june 2020 -3 weeks`), A to B in both orders, today/tomorrow/yesterday and their differences; a quarter of the cases under one of the other three separator conventions (dates contain no separators), a third of the cases under a non-UTC default zone (GMT+14, GMT-12, EST, CET, IST, NPT, GMT+13:45, GMT-9:30: calendar dates and their arithmetic do not depend on the zone, and the three day constants stay consecutive); oracle: independent proleptic-Gregorian calendar (days-from-civil), month arithmetic = month index moved by N keeping the day of month (asserted only when that day exists and the result is in years 1..9999), differences = |days|*86400 s, output month word/year elision checked; exhaustive grid 12 months x N 0..36 x +- x days {1,15,28}; non-trivial = the operation crosses a month boundary, or a non-canonical spelling, an impossible date, a difference");
     ctx.assume("the clock: expected values for today/current-year are computed from chrono::Utc read before and after each evaluation; a case during which the date changes is skipped");
     ctx.assume("a third of the cases run under a non-UTC default zone; there a bare today/tomorrow/yesterday may be the UTC day or the zone's day (at most one day apart), their differences must still be exactly one and two days");
     ctx.run_table(&Dates, "month-grid+month-names", month_grid(), true);
